@@ -34,6 +34,8 @@ type Exec struct {
 	scenario   string
 	overflow   bool
 	curGen     *shapeGen
+	curCtx     *obCtx
+	safetyHits []string
 }
 
 type FuncStats struct {
